@@ -117,6 +117,16 @@ func H_C17_Merge() {
 	if n > 1 {
 		_ = db.Update(func(tx *Tx) error { return tx.Delete("a", []byte("k0")) })
 	}
+	if vParam("ds") == 1 && mode == HintKeyValAndRAMIdxMode {
+		// list, set and sorted-set records spread over further segments: Merge consults their indexes
+		_ = db.Update(func(tx *Tx) error { return tx.RPush(bucketList, vDSKeys[0], []byte("a"), []byte("b")) })
+		_ = db.Update(func(tx *Tx) error { _, e := tx.LPop(bucketList, vDSKeys[0]); return e })
+		_ = db.Update(func(tx *Tx) error { return tx.SAdd(bucketSet, vDSKeys[0], []byte("a"), []byte("b")) })
+		_ = db.Update(func(tx *Tx) error { return tx.SRem(bucketSet, vDSKeys[0], []byte("a")) })
+		_ = db.Update(func(tx *Tx) error { return tx.ZAdd(bucketZSet, []byte("m"), 1, []byte("v")) })
+		_ = db.Update(func(tx *Tx) error { return tx.ZAdd(bucketZSet, []byte("n"), 2, []byte("w")) })
+		_ = db.Update(func(tx *Tx) error { return tx.ZRem(bucketZSet, "m") })
+	}
 	vShare(db)
 	vTrace(true)
 	vReach("c17.merge")
